@@ -35,10 +35,13 @@ def gen_dense(rng):
     nets = []
     for _ in range(rng.randint(6, 16)):
         nets.append(dict(source=rng.choice(ids), sinks=[rng.choice(ids) for _ in range(rng.randint(1, 3))], weight=1.0))
-    nbits = rng.choice([4, 5]) if len(nets) <= 16 else 5
-    vals = rng.sample(range(1 << nbits), len(nets))
     shift = rng.choice([0, 8, 27])
-    keys = [[v << shift, ((1 << nbits) - 1) << shift] for v in vals]
+    if rng.random() < 0.7:
+        keys = pnr_gen.ternary_keys(rng, len(nets), shift)      # don't-care bits at arbitrary positions
+    else:
+        nbits = rng.choice([4, 5]) if len(nets) <= 16 else 5
+        vals = rng.sample(range(1 << nbits), len(nets))
+        keys = [[v << shift, ((1 << nbits) - 1) << shift] for v in vals]
     return dict(machine=dict(w=w, h=h, dead_chips=[], dead_links=dead_links,
                              cores=-(-nv // (w * h)) + rng.choice([1, 1, 2]), sdram=10000, exc=[]),
                 vertices=vertices, nets=nets, constraints=[], keys=keys)
@@ -50,11 +53,11 @@ def gen_case(rng, big=False):
         return dict(problem=p, mode=rng.choice(["manual", "wrapper", "pnr"]), placer=rng.choice(PLACERS),
                     radius=rng.choice([0, 1, 2, 20]), methods=rng.choice([["rd", "oc"], ["oc"], ["rd"], []]),
                     target=rng.choice([None, None, 3, 1024, "dict"]), seed=rng.randint(0, 10 ** 6), stream="big")
-    if rng.random() < 0.4:
+    if rng.random() < 0.5:
         return dict(problem=gen_dense(rng), mode=rng.choice(["manual", "manual", "pnr"]),
                     placer=rng.choice(["sequential", "hilbert", "rand", "breadth_first", "rcm"]),
-                    radius=rng.choice([0, 1, 20]), methods=rng.choice([["oc"], ["rd", "oc"], ["oc", "rd"], ["rd"]]),
-                    target=rng.choice([None, None, None, 3, 5, "dict"]), seed=rng.randint(0, 10 ** 6), stream="dense")
+                    radius=rng.choice([0, 1, 20]), methods=rng.choice([["oc"], ["oc"], ["rd", "oc"], ["oc", "rd"], ["rd"]]),
+                    target=rng.choice([None, None, None, None, 3, 5, "dict"]), seed=rng.randint(0, 10 ** 6), stream="dense")
     p = pnr_gen.gen_problem(rng, max_w=rng.choice([3, 4, 6]), max_h=rng.choice([3, 4, 6]), max_vertices=12)
     mode = rng.choice(["manual", "manual", "manual", "wrapper", "pnr"])
     return dict(problem=p, mode=mode, placer=rng.choice(PLACERS), radius=rng.choice([0, 1, 2, 20]),
@@ -170,11 +173,38 @@ def run(chk, args):
             if not o["documented"]:
                 chk.count("undocumented-exception:" + o["exc"] + "@" + o["stage"])
             continue
+        # the property speaks of EVERY key matched by a net's (key, mask): besides the base key, the key with all
+        # don't-care bits set and two pseudo-random fillings of the don't-care bits are injected as well (the Python
+        # simulator and the checker inside Coq both see this expanded list)
+        probes, every = [], []
+        for n_ in o["nets"]:
+            free = ~n_["mask"] & 0xffffffff
+            fills = {0, free} | {((n_["key"] + 1) * mult + add) & free
+                                 for mult, add in ((2654435761, 12345), (40503, 0x9e3779b9), (69069, 1), (1103515245, 7),
+                                                   (0x5bd1e995, 0x1b873593), (48271, 0xdeadbeef))}
+            for f in sorted(fills):
+                probes.append(dict(n_, key=n_["key"] | f))
+            # the Python simulator also follows EVERY filling of the don't-care bits that lie among the bits some
+            # net specifies (with the remaining don't-care bits all 0 and all 1)
+            field = 0
+            for n2 in o["nets"]:
+                field |= n2["mask"]
+            inner = [1 << b for b in range(32) if (free >> b) & 1 and (field >> b) & 1]
+            if len(inner) <= 7:
+                outer = free & ~field
+                for combo in range(1 << len(inner)):
+                    f = sum(b for i_, b in enumerate(inner) if (combo >> i_) & 1)
+                    every.append(dict(n_, key=n_["key"] | f))
+                    if outer:
+                        every.append(dict(n_, key=n_["key"] | f | outer))
+        chk.count("keys-followed-by-the-simulator", len(every) + len(probes))
+        why_every = oracle(c, dict(o, nets=every)) if every else None
+        o["nets"] = probes
         nontriv = sum(len(n_["cores"]) + len(n_["links"]) for n_ in o["nets"]) >= 2 and len(o["tables"]) >= 1
         chk.note_case(c, nontriv)
-        chk.count("nets", len(o["nets"]))
+        chk.count("keys-injected", len(o["nets"]))
         chk.count("table-entries", sum(len(t) for _, _, t in o["tables"]))
-        why = oracle(c, o)
+        why = oracle(c, o) or why_every
         if why:
             chk.fail_input("delivery:" + why.split(":")[1].strip()[:40].replace(" ", "_"), why,
                            dict(case=c, tables=o["tables"], nets=o["nets"]))
